@@ -450,6 +450,50 @@ func callsOf(fd *ast.FuncDecl) []string {
 	return out
 }
 
+// uncheckedAsserts: single-value type assertions x.(T) (those that panic when they fail), per
+// function, in source order.  Comma-ok assertions and type switches are not listed.
+func uncheckedAsserts(f *ast.File) []string {
+	var out []string
+	for _, d := range f.Decls {
+		fd, ok := d.(*ast.FuncDecl)
+		if !ok || fd.Body == nil {
+			continue
+		}
+		checked := map[*ast.TypeAssertExpr]bool{}
+		ast.Inspect(fd.Body, func(n ast.Node) bool {
+			switch n := n.(type) {
+			case *ast.AssignStmt:
+				if len(n.Lhs) == 2 && len(n.Rhs) == 1 {
+					if ta, ok := n.Rhs[0].(*ast.TypeAssertExpr); ok {
+						checked[ta] = true
+					}
+				}
+			case *ast.ValueSpec:
+				if len(n.Names) == 2 && len(n.Values) == 1 {
+					if ta, ok := n.Values[0].(*ast.TypeAssertExpr); ok {
+						checked[ta] = true
+					}
+				}
+			case *ast.TypeSwitchStmt:
+				ast.Inspect(n.Assign, func(m ast.Node) bool {
+					if ta, ok := m.(*ast.TypeAssertExpr); ok {
+						checked[ta] = true
+					}
+					return true
+				})
+			}
+			return true
+		})
+		ast.Inspect(fd.Body, func(n ast.Node) bool {
+			if ta, ok := n.(*ast.TypeAssertExpr); ok && !checked[ta] && ta.Type != nil {
+				out = append(out, fd.Name.Name+": "+text(ta))
+			}
+			return true
+		})
+	}
+	return out
+}
+
 func main() {
 	repo := "/repo"
 	out := "/verif/lean/WireV/Generated/Tables.lean"
@@ -547,6 +591,11 @@ func main() {
 	w("def injectCalls : List String := %s\n", lstr(callsOf(findFunc(wf, "gen", "inject"))))
 	w("def generateInjectorsCalls : List String := %s\n", lstr(callsOf(findFunc(wf, "", "generateInjectors"))))
 	w("def processNewSetCalls : List String := %s\n\n", lstr(callsOf(findFunc(pf, "objectCache", "processNewSet"))))
+
+	w("/-- single-value type assertions (they panic on failure) in the front end and the generator, per function -/\n")
+	w("def uncheckedAssertsParse : List String := %s\n", lstr(uncheckedAsserts(pf)))
+	w("def uncheckedAssertsWire : List String := %s\n", lstr(uncheckedAsserts(wf)))
+	w("def uncheckedAssertsAnalyze : List String := %s\n\n", lstr(uncheckedAsserts(parse(repo+"/internal/wire/analyze.go"))))
 
 	var kws []string
 	for t := token.BREAK; t <= token.VAR; t++ {
